@@ -218,6 +218,22 @@ func (e *Exec) checkPosts(fr *Frame, st *State, ret *ssa.Return, vals []Val) {
 	if e.cover {
 		o := e.obligeNoAssume(st, "cover:return"+suffix, "cover", nil, "false", "return is reachable under the preconditions", ret.Pos())
 		o.ExpectSat = true
+		o.CoverGroup = e.name + "#return"
+		// vacuity of conditional clauses: the premise of imp(A, B) must be satisfiable at some return
+		for i, c := range e.fc.Ensures {
+			call, ok := c.Expr.(*ast.CallExpr)
+			if !ok || identName(call.Fun) != "imp" || len(call.Args) != 2 {
+				continue
+			}
+			lbl := c.Label
+			if lbl == "" {
+				lbl = fmt.Sprintf("%d", i+1)
+			}
+			prem := e.evalBool(env, call.Args[0])
+			po := e.obligeNoAssume(st, "cover:premise:"+lbl+suffix, "cover", nil, sNot(prem), "premise of clause "+lbl+" is satisfiable", ret.Pos())
+			po.ExpectSat = true
+			po.CoverGroup = e.name + "#premise:" + lbl
+		}
 	}
 }
 
